@@ -192,7 +192,9 @@ class DictArray(StorageBase):
             return
         path = self._path()
         path.parent.mkdir(parents=True, exist_ok=True)
-        dump(self._dict, path)
+        # Persist the contents; `self._dict` might be a manager proxy
+        # which is meaningless once the manager process is gone.
+        dump(dict(self._dict.items()), path)
 
     def load(self) -> None:
         """Load the dict storage from disk."""
@@ -201,7 +203,7 @@ class DictArray(StorageBase):
         path = self._path()
         if not path.is_file():
             return
-        self._dict = load(path)
+        self._dict.update(load(path))
 
     @property
     def dump_in_subprocess(self) -> bool:
